@@ -77,13 +77,12 @@ theorem literal_roundtrip (k : Kind) (s rest : Str) (hb : backslashEscapes k = f
     (h : rest.head? ≠ some '\'') : lex k (sqlLiteral s ++ rest) = .str s :: lex k rest :=
   lex_sqlLiteral k s rest hb h
 
-/-- what Alembic's MSSQL visitors write (`'` ++ s ++ `'`) round-trips only without a `'` in `s` -/
-theorem raw_literal_roundtrip (s rest : Str) (hq : '\'' ∉ s) (h : rest.head? ≠ some '\'') :
-    lex .mssql ('\'' :: (s ++ '\'' :: rest)) = .str s :: lex .mssql rest := by
-  have := lex_sqlLiteral .mssql s rest (Or.inl rfl) h
-  simpa [lex, sqlLiteral, escapeClose_id '\'' s hq] using this
+/-- what Alembic's MSSQL visitors write (`'` ++ `_quote_in_literal(s)` ++ `'`) reads back as `s`, for EVERY `s` -/
+theorem mssql_literal_roundtrip (s rest : Str) (h : rest.head? ≠ some '\'') :
+    lex .mssql ('\'' :: (quoteInLiteral s ++ '\'' :: rest)) = .str s :: lex .mssql rest :=
+  lex_quotedLiteral s rest h
 
-example : lex .mssql "'it's'".toList ≠ [.str "it's".toList] := by decide
+example : lex .mssql "'it's'".toList ≠ [.str "it's".toList] := by decide   -- the pre-fix form is rejected
 example : lex .mssql (sqlLiteral "it's".toList) = [.str "it's".toList] := by decide
 
 /-- discharges the four obligations of `good_of_pieces` for `pieces k c` on a concrete dialect -/
@@ -180,16 +179,16 @@ theorem stmt_columnDefault (k : Kind) (r : Str → Bool) (g : Tgt) (col : Name) 
     have h3 := hd d rfl
     c14_all k, r, (.columnDefault g col (some d)), hk
 
-/-- PostgreSQL `COMMENT ON COLUMN` (the Oracle visitor is `columnComment_oracle_counterexample`) -/
-theorem stmt_columnComment_postgresql (r : Str → Bool) (g : Tgt) (col : Name) (comment : Option Str)
-    (hg : TgtOK .postgresql g) (hc : NameOK .postgresql col)
-    (hd : ∀ d, comment = some d → okText .postgresql d = true) : Good .postgresql r (.columnComment g col comment) := by
-  have h1 := ok_tblColP .postgresql g col hg hc
+/-- `COMMENT ON COLUMN` (PostgreSQL and, since the fix of F6, Oracle): table and column quoted, schema honoured -/
+theorem stmt_columnComment (k : Kind) (r : Str → Bool) (g : Tgt) (col : Name) (comment : Option Str)
+    (hk : k = .postgresql ∨ k = .oracle) (hg : TgtOK k g) (hc : NameOK k col)
+    (hd : ∀ d, comment = some d → okText k d = true) : Good k r (.columnComment g col comment) := by
+  have h1 := ok_tblColP k g col hg hc
   match comment, hd with
-  | none, _ => c14_pieces Kind.postgresql, r, (.columnComment g col none)
+  | none, _ => c14_all k, r, (.columnComment g col none), hk
   | some d, hd =>
     have h3 := hd d rfl
-    c14_pieces Kind.postgresql, r, (.columnComment g col (some d))
+    c14_all k, r, (.columnComment g col (some d)), hk
 
 theorem stmt_identity (k : Kind) (r : Str → Bool) (g : Tgt) (col : Name) (tail : Str)
     (hk : k = .postgresql ∨ k = .oracle) (hg : TgtOK k g) (hc : NameOK k col) (ht : okText k tail = true) :
@@ -350,46 +349,10 @@ theorem nameOK_of_dec (k : Kind) (n : Name) (h1 : n.s ≠ []) (h2 : dblPercent k
 theorem tgtOK_noSchema (k : Kind) (t : Name) (h : NameOK k t) : TgtOK k { t := t } :=
   ⟨h, by intro n hn; simp [schemaNames, schemaGiven] at hn⟩
 
-/-- full-strength statement for `COMMENT ON COLUMN` on Oracle -/
-def columnComment_oracle_statement : Prop :=
-  ∀ (r : Str → Bool) (g : Tgt) (col : Name) (comment : Str), TgtOK .oracle g → NameOK .oracle col →
-    okText .oracle comment = true → Good .oracle r (.columnComment g col (some comment))
-
-/-- F6: `alembic/ddl/oracle.py visit_column_comment` writes the raw names -/
-theorem columnComment_oracle_counterexample : ¬ columnComment_oracle_statement := by
-  intro h
-  have := h (fun _ => false) { t := plainName "My T" } (plainName "c") "'x'".toList
-    (tgtOK_noSchema _ _ (nameOK_of_dec _ _ (by decide) (by decide) (by decide) (by decide) (by decide)))
-    (nameOK_of_dec _ _ (by decide) (by decide) (by decide) (by decide) (by decide)) (by decide)
-  rw [good_iff] at this
-  revert this
-  decide
-
-/-- full-strength statement for the MSSQL statements that embed names in `'…'` literals -/
-def mssql_literal_statement : Prop :=
-  ∀ (r : Str → Bool) (g : Tgt) (col new : Name) (rawcol ty : Str), TgtOK .mssql g → NameOK .mssql col →
-    NameOK .mssql new → okText .mssql ty = true →
-    Good .mssql r (.renameTable g new) ∧ Good .mssql r (.columnName g col new) ∧
-    Good .mssql r (.mssqlDropConstraint g rawcol ty) ∧ Good .mssql r (.mssqlDropFK g rawcol)
-
-/-- F7: `sp_rename '…'`, `object_id('…')`, `col_name(…) = '…'`, `exec('alter table …')` do not double `'` -/
-theorem mssql_literal_counterexample : ¬ mssql_literal_statement := by
-  intro h
-  have := (h (fun _ => false) { t := plainName "it's" } (plainName "c") (plainName "d") "c".toList
-    "sys.default_constraints".toList
-    (tgtOK_noSchema _ _ (nameOK_of_dec _ _ (by decide) (by decide) (by decide) (by decide) (by decide)))
-    (nameOK_of_dec _ _ (by decide) (by decide) (by decide) (by decide) (by decide))
-    (nameOK_of_dec _ _ (by decide) (by decide) (by decide) (by decide) (by decide)) (by decide)).2.1
-  rw [good_iff] at this
-  revert this
-  decide
-
-/-- F7 `_partial`: `sp_rename '<table>.<column>', <new>, 'COLUMN'` is correct for ALL names without a single
-    quote in the table/schema/column names that are embedded in the literal -/
-theorem stmt_mssql_columnName_partial (r : Str → Bool) (g : Tgt) (col new : Name) (hg : TgtOK .mssql g)
-    (hc : NameOK .mssql col) (hn : NameOK .mssql new)
-    (hq : ∀ n ∈ schemaNames g ++ [g.t, col], '\'' ∉ n.s) : Good .mssql r (.columnName g col new) := by
-  have hinner : '\'' ∉ renderP .mssql r (tblColP g col) := squote_not_mem_dotted r _ hq
+/-- MSSQL `sp_rename '<table>.<column>', <new>, 'COLUMN'` for ALL names (since the fix of F7 the formatted
+    names go through `_quote_in_literal`): the literal's content is SQL naming exactly schema.table.column -/
+theorem stmt_mssql_columnName (r : Str → Bool) (g : Tgt) (col new : Name) (hg : TgtOK .mssql g)
+    (hc : NameOK .mssql col) (hn : NameOK .mssql new) : Good .mssql r (.columnName g col new) := by
   have hpk := ok_tblColP .mssql g col hg hc
   obtain ⟨hne, hnames, hitem⟩ := hpk
   have hm0 := match0_chain r (schemaNames g ++ [g.t, col]) (schemaOf g) [g.t.s, col.s] hne hnames (by simpa [itemOk] using hitem)
@@ -399,14 +362,16 @@ theorem stmt_mssql_columnName_partial (r : Str → Bool) (g : Tgt) (col new : Na
     (by simp [ps, piecesOK_cons, piecesOK_nil, pieceOK_L, h2]) (by intro c hc; simp at hc; subst hc; decide)
     (by unfold noDot; decide)
   refine ⟨_, _, by unfold render; rfl, rfl, ?_⟩
-  have e : "EXEC sp_rename '".toList ++ formatTableName .mssql r g.t g.schema ++ '.' :: formatColumnName .mssql r col ++
+  have e : "EXEC sp_rename '".toList ++ quoteInLiteral (formatTableName .mssql r g.t g.schema) ++ '.' ::
+        quoteInLiteral (formatColumnName .mssql r col) ++
         "', ".toList ++ formatColumnName .mssql r new ++ ", 'COLUMN'".toList ++ terminator .mssql =
-      "EXEC sp_rename ".toList ++ ('\'' :: (renderP .mssql r (tblColP g col) ++ '\'' ::
+      "EXEC sp_rename ".toList ++ ('\'' :: (quoteInLiteral (renderP .mssql r (tblColP g col)) ++ '\'' ::
         (renderPs .mssql r ps ++ ", 'COLUMN';".toList))) := by
-    simp [ps, render_tblColP, renderPs, render_L, render_nameP, formatColumnName, terminator]
+    simp [ps, render_tblColP, renderPs, render_L, render_nameP, formatColumnName, terminator, ← quoteInLiteral_dot]
   have hl1 := lex_text_piece .mssql "EXEC sp_rename ".toList
-    ('\'' :: (renderP .mssql r (tblColP g col) ++ '\'' :: (renderPs .mssql r ps ++ ", 'COLUMN';".toList))) (by decide) (Or.inl (by decide))
-  have hl2 := lex_rawLiteral (renderP .mssql r (tblColP g col)) (renderPs .mssql r ps ++ ", 'COLUMN';".toList) hinner
+    ('\'' :: (quoteInLiteral (renderP .mssql r (tblColP g col)) ++ '\'' :: (renderPs .mssql r ps ++ ", 'COLUMN';".toList)))
+    (by decide) (Or.inl (by decide))
+  have hl2 := lex_quotedLiteral (renderP .mssql r (tblColP g col)) (renderPs .mssql r ps ++ ", 'COLUMN';".toList)
     (by simp [ps, renderPs, render_L])
   have hfin : matchItems .mssql r [T ",", .strIs "COLUMN".toList] (lexFrom .mssql .none ", 'COLUMN';".toList) =
       some (lex .mssql (terminator .mssql)) := by rfl
@@ -425,13 +390,57 @@ theorem stmt_mssql_columnName_partial (r : Str → Bool) (g : Tgt) (col new : Na
   rw [hps, hfin]
   simp
 
+/-- MSSQL `sp_rename '<table>', <new>` for ALL names -/
+theorem stmt_mssql_renameTable (r : Str → Bool) (g : Tgt) (new : Name) (hg : TgtOK .mssql g)
+    (hn : NameOK .mssql new) : Good .mssql r (.renameTable g new) := by
+  have hpk := ok_tblP .mssql g hg
+  obtain ⟨hne, hnames, hitem⟩ := hpk
+  have hm0 := match0_chain r (schemaNames g ++ [g.t]) (schemaOf g) [g.t.s] hne hnames (by simpa [itemOk] using hitem)
+  have h2 := ok_nameP .mssql new hn
+  let ps : List Piece := [L ", " ",", nameP new]
+  have hps := pieces_ok_more .mssql r ps [] (terminator .mssql) (by rfl)
+    (by simp [ps, piecesOK_cons, piecesOK_nil, pieceOK_L, h2]) (sepHead_term .mssql) (noDot_term .mssql)
+  refine ⟨_, _, by unfold render; rfl, rfl, ?_⟩
+  have e : "EXEC sp_rename '".toList ++ quoteInLiteral (formatTableName .mssql r g.t g.schema) ++
+        "', ".toList ++ formatTableName .mssql r new none ++ terminator .mssql =
+      "EXEC sp_rename ".toList ++ ('\'' :: (quoteInLiteral (renderP .mssql r (tblP g)) ++ '\'' ::
+        (renderPs .mssql r ps ++ terminator .mssql))) := by
+    simp [ps, render_tblP, renderPs, render_L, render_nameP, formatTableName_none, terminator]
+  have hl1 := lex_text_piece .mssql "EXEC sp_rename ".toList
+    ('\'' :: (quoteInLiteral (renderP .mssql r (tblP g)) ++ '\'' :: (renderPs .mssql r ps ++ terminator .mssql)))
+    (by decide) (Or.inl (by decide))
+  have hl2 := lex_quotedLiteral (renderP .mssql r (tblP g)) (renderPs .mssql r ps ++ terminator .mssql)
+    (by simp [ps, renderPs, render_L])
+  have hlex1 : lex .mssql "EXEC sp_rename ".toList = lex .mssql "EXEC sp_rename".toList := by decide
+  have hitems : ([T "EXEC sp_rename", Item.strSql [.ref (schemaOf g) [g.t.s]], T ",", nameRef new] : List Item) =
+      T "EXEC sp_rename" :: Item.strSql [.ref (schemaOf g) [g.t.s]] :: (itemsPs ps ++ []) := by
+    simp [ps, itemsPs, itemsP, L, T, nameP, nameRef]
+  unfold emittedOk
+  rw [lex, e, hl1, hl2, hlex1, hitems]
+  simp only [T, match_text]
+  simp only [matchItems]
+  have hm0' : match0 .mssql r [.ref (schemaOf g) [g.t.s]] (lex .mssql (renderP .mssql r (tblP g))) = some [] := hm0
+  simp only [hm0', beq_self_eq_true, if_true]
+  rw [hps]
+  simp [matchItems, lex]
+
+/-- the statements hold on witnesses that used to fail before the fixes of F6/F7 (and the recogniser is not vacuous) -/
+example : goodB .mssql (fun _ => false) (.columnName { t := plainName "it's" } (plainName "c") (plainName "d")) = true := by
+  decide +kernel
+example : goodB .oracle (fun _ => false) (.columnComment { t := plainName "My T", schema := some (plainName "My S") }
+    (plainName "select") (some "'x'".toList)) = true := by decide +kernel
+example : emittedOk .oracle (fun _ => false)
+    ((shape .oracle (.columnComment { t := plainName "My T" } (plainName "c") (some "'x'".toList))).getD [])
+    "COMMENT ON COLUMN My T.c IS 'x'".toList = false := by decide +kernel   -- the pre-fix text is rejected
+example : emittedOk .mssql (fun _ => false)
+    ((shape .mssql (.columnName { t := plainName "it's" } (plainName "c") (plainName "d"))).getD [])
+    "EXEC sp_rename '[it's].c', d, 'COLUMN';".toList = false := by decide +kernel   -- the pre-fix text is rejected
+
 /-- the same four statements are fine on the literal-free witness (the recogniser is not vacuous) -/
 example : goodB .mssql (fun _ => false) (.columnName { t := plainName "My T", schema := some (plainName "dbo") }
     (plainName "c") (plainName "D")) = true := by decide
 example : goodB .mssql (fun _ => false) (.mssqlDropFK { t := plainName "My T", schema := some (plainName "dbo") } "c".toList) = true := by
   decide +kernel
-example : goodB .oracle (fun _ => false) (.columnComment { t := plainName "t" } (plainName "c") (some "'x'".toList)) = true := by
-  decide
 
 /-- `%` in a quoted name on PostgreSQL/MySQL (finding C14-PERCENT): excluded by `NameOK.pct` -/
 theorem percent_counterexample :
